@@ -14,6 +14,91 @@ import (
 // rangeCopiesAllBut checks that a `for k, v := range src` loop in fn calls
 // adder(dst, k, v) on every iteration except when k == skipConst.
 func rangeCopiesAllBut(fn *ssa.Function, src ssa.Value, adder string, dst ssa.Value, skipConst string) (bool, string) {
+	addsPair := func(in ssa.Instruction, key, val ssa.Value, to ssa.Value) bool {
+		c, ok := ssax.AsCall(in)
+		if !ok || c.ShortName() != adder {
+			return false
+		}
+		args := c.Args()
+		return len(args) == 3 && ssax.Strip(args[0]) == ssax.Strip(to) && ssax.Strip(args[1]) == key && ssax.Strip(args[2]) == val
+	}
+	ok, why := rangeVisitsAllBut(fn, src, skipConst, func(in ssa.Instruction, k, v ssa.Value) bool { return addsPair(in, k, v, dst) })
+	if ok || why != "no loop over the headers that were read" {
+		return ok, why
+	}
+	// the iteration may be a helper of the package that is handed the map and a
+	// visitor: forEach(headers, func(name, value string) { dst.Add…(name, value) })
+	for _, c := range ssax.Calls(fn) {
+		g := c.Static
+		if g == nil || g.Pkg != fn.Pkg || len(g.Blocks) == 0 {
+			continue
+		}
+		mi, vi := -1, -1
+		var visitor *ssa.Function
+		var mc *ssa.MakeClosure
+		for i, a := range c.Common.Args {
+			if ssax.Strip(a) == ssax.Strip(src) {
+				mi = i
+			}
+			if cl, isMC := ssax.Strip(a).(*ssa.MakeClosure); isMC {
+				vi, mc = i, cl
+				visitor, _ = cl.Fn.(*ssa.Function)
+			}
+		}
+		if mi < 0 || vi < 0 || visitor == nil || mi >= len(g.Params) || vi >= len(g.Params) || len(visitor.Params) != 2 {
+			continue
+		}
+		// the helper calls the visitor with (key, value) of every entry but the skipped one
+		fp := g.Params[vi]
+		okIter, whyIter := rangeVisitsAllBut(g, g.Params[mi], skipConst, func(in ssa.Instruction, k, v ssa.Value) bool {
+			call, isCall := in.(*ssa.Call)
+			return isCall && ssax.Strip(call.Call.Value) == ssa.Value(fp) && len(call.Call.Args) == 2 && ssax.Strip(call.Call.Args[0]) == k && ssax.Strip(call.Call.Args[1]) == v
+		})
+		if !okIter {
+			return false, whyIter + " (in " + g.Name() + ")"
+		}
+		// the visitor adds its two parameters to dst on every path
+		var to ssa.Value
+		for i, fv := range visitor.FreeVars {
+			if i < len(mc.Bindings) {
+				b := ssax.Strip(mc.Bindings[i])
+				if b == ssax.Strip(dst) {
+					to = fv
+				}
+				if a, isAlloc := b.(*ssa.Alloc); isAlloc { // captured by reference: the cell holding dst
+					for _, u := range *a.Referrers() {
+						if st, isSt := u.(*ssa.Store); isSt && st.Addr == ssa.Value(a) && ssax.Strip(st.Val) == ssax.Strip(dst) {
+							to = fv
+						}
+					}
+				}
+			}
+		}
+		if to == nil {
+			return false, "the visitor does not add to the context"
+		}
+		isAdd := func(in ssa.Instruction) bool {
+			c, ok := ssax.AsCall(in)
+			if !ok || c.ShortName() != adder || len(c.Args()) != 3 {
+				return false
+			}
+			recv := ssax.Strip(c.Args()[0])
+			if u, isU := recv.(*ssa.UnOp); isU && u.Op == token.MUL {
+				recv = u.X // load of the captured cell
+			}
+			return recv == to && ssax.Strip(c.Args()[1]) == ssa.Value(visitor.Params[0]) && ssax.Strip(c.Args()[2]) == ssa.Value(visitor.Params[1])
+		}
+		if ssax.PathFrom(visitor, nil, ssax.IsReturn, isAdd) != nil {
+			return false, "the visitor can return without adding the pair"
+		}
+		return true, ""
+	}
+	return ok, why
+}
+
+// rangeVisitsAllBut: fn ranges over map src and, on every trip whose key is not
+// skipConst, executes an instruction accepted by visit(in, key, value).
+func rangeVisitsAllBut(fn *ssa.Function, src ssa.Value, skipConst string, visit func(in ssa.Instruction, k, v ssa.Value) bool) (bool, string) {
 	var rg *ssa.Range
 	ssax.Instrs(fn, func(in ssa.Instruction) {
 		if r, ok := in.(*ssa.Range); ok && ssax.Strip(r.X) == ssax.Strip(src) {
@@ -47,18 +132,19 @@ func rangeCopiesAllBut(fn *ssa.Function, src ssa.Value, adder string, dst ssa.Va
 		return false, "range body not found"
 	}
 	var call ssa.Instruction
+	var keyV, valV ssa.Value
+	for _, u := range *next.Referrers() {
+		if e, ok := u.(*ssa.Extract); ok {
+			switch e.Index {
+			case 1:
+				keyV = e
+			case 2:
+				valV = e
+			}
+		}
+	}
 	ssax.Instrs(fn, func(in ssa.Instruction) {
-		c, ok := ssax.AsCall(in)
-		if !ok || c.ShortName() != adder {
-			return
-		}
-		args := c.Args()
-		if len(args) != 3 || ssax.Strip(args[0]) != ssax.Strip(dst) {
-			return
-		}
-		k, ok1 := ssax.Strip(args[1]).(*ssa.Extract)
-		v, ok2 := ssax.Strip(args[2]).(*ssa.Extract)
-		if ok1 && ok2 && k.Tuple == ssa.Value(next) && v.Tuple == ssa.Value(next) && k.Index == 1 && v.Index == 2 {
+		if keyV != nil && valV != nil && visit(in, keyV, valV) {
 			call = in
 		}
 	})
